@@ -177,9 +177,13 @@ func c09run(c *mon.Ctx, pool *c09pool, cs c09case, rng *rand.Rand) {
 		}
 	}
 	identityAt := map[int]bool{}
+	torsionAt := map[int]bool{} // the order-2 point (0,-1): only at the curve-level entries
 	if cs.variant == 5 {
 		for i := 0; i < cs.n; i += 1 + rng.Intn(4) {
 			identityAt[i] = true
+			if (cs.entry == 0 || cs.entry == 3) && rng.Intn(2) == 0 {
+				torsionAt[i] = true
+			}
 		}
 	}
 	// expected discrete log
@@ -197,6 +201,17 @@ func c09run(c *mon.Ctx, pool *c09pool, cs c09case, rng *rand.Rand) {
 	}
 	acc.Mod(acc, ref.R)
 	want := ref.Mul(ref.Generator(), acc)
+	// curve-level expectation: the subgroup part plus (0,-1) once for every torsion input with an odd scalar
+	odd := 0
+	for i := range idx {
+		if torsionAt[i] && scal[i].Bit(0) == 1 {
+			odd++
+		}
+	}
+	wantExact := want
+	if odd%2 == 1 {
+		wantExact = ref.Add(want, ref.FromAffine(ref.Affine{X: new(big.Int), Y: new(big.Int).Sub(ref.P, bigOne)}))
+	}
 
 	ls := make([]fr.Element, cs.n)
 	for i := range ls {
@@ -221,6 +236,9 @@ func c09run(c *mon.Ctx, pool *c09pool, cs c09case, rng *rand.Rand) {
 			}
 			if identityAt[i] {
 				pts[i] = bandersnatch.PointAffine{X: FpFromBig(bigZero), Y: FpFromBig(bigOne)}
+				if torsionAt[i] {
+					pts[i].Y = FpFromBig(new(big.Int).Sub(ref.P, bigOne))
+				}
 			}
 		}
 		snapP := append([]bandersnatch.PointAffine(nil), pts...)
@@ -309,6 +327,9 @@ func c09run(c *mon.Ctx, pool *c09pool, cs c09case, rng *rand.Rand) {
 		c.Fail("msm-invalid-point/"+entry, fmt.Sprintf("%s returned an invalid point (%s)", entry, cls), det)
 	case !ref.ClassEqual(got, want):
 		c.Fail(fmt.Sprintf("msm-wrong-sum/%s/c=%d", entry, cPred), fmt.Sprintf("%s != sum s_i*P_i (%s)", entry, cls), det)
+	case (cs.entry == 0 || cs.entry == 3) && !ref.EqualExact(got, wantExact):
+		// bandersnatch.MultiExp is a function on curve points: the sum must be the right point, not only the right class
+		c.Fail(fmt.Sprintf("msm-wrong-curve-point/%s", entry), fmt.Sprintf("%s returns the other member of the class: as a curve point the sum is wrong (%d order-2 inputs with odd scalar) (%s)", entry, odd, cls), det)
 	}
 	c.Count("msm_compared_with_reference", 1)
 	c.Eval(cls, cs.n >= 2)
